@@ -3,15 +3,15 @@
  "property": "C12",
  "standin": "B-gsu",
  "bound": "displays with <= 3 elements x 4 layouts x 4 kinds x delete subsets x 5 insert patterns (1500 sampled cases quick / all thorough) through the real apply_all + new_code",
- "input": "('dict', 'trailing', ('1', '0+2', '\"\"\"a\\nb\"\"\"'), (0, 1), {})",
- "detail": "AssertionError: (Replacement(range=SourceRange(start=SourcePosition(lineno=1, col_offset=4), end=SourcePosition(lineno=2, col_offset=5)), text='', change_id=10), Replacement(range=SourceRange(start=SourcePosition(lineno=1, col_offset=15), end=SourcePosition(lineno=1, col_offset=29)), text='', change_id=10))"
+ "input": "('call', 'multi', ('\"\"\"a\\nb\"\"\"', '1'), (1,), {1: ['\"\"\"x\\ny\"\"\"']})",
+ "detail": "result does not parse (invalid syntax): 'x = \\'\u00e4\u00f6\\'; v = g(\\n    , \"\"\"x\\ny\"\"\")  # tail\\ny = 2\\n'"
 }
 """
 
 import sys, tempfile
 sys.path.insert(0, "/verif")
 from bounded.b_gsu import one_case
-msg = one_case(tempfile.mkdtemp(), *('dict', 'trailing', ('1', '0+2', '"""a\nb"""'), (0, 1), {}))
-print(('dict', 'trailing', ('1', '0+2', '"""a\nb"""'), (0, 1), {}), "->", msg)
+msg = one_case(tempfile.mkdtemp(), *('call', 'multi', ('"""a\nb"""', '1'), (1,), {1: ['"""x\ny"""']}))
+print(('call', 'multi', ('"""a\nb"""', '1'), (1,), {1: ['"""x\ny"""']}), "->", msg)
 assert msg is None, msg
 
